@@ -383,6 +383,9 @@ def put_model(mjm: mujoco.MjModel, batch_sizes: dict[str, int] | None = None) ->
   if (mjm.actuator_plugin != -1).any():
     raise NotImplementedError("Actuator plugins not supported.")
 
+  if np.any(getattr(mjm, "actuator_ctrlnum", 1) != 1):
+    raise NotImplementedError("Actuators without exactly one control input are not supported.")
+
   if (mjm.sensor_plugin != -1).any():
     raise NotImplementedError("Sensor plugins not supported.")
 
